@@ -694,7 +694,8 @@ def case_ident(ck, rng):
                 "MultiDomains with one different sub-domain are identical/equal")
     # permuted sub-domain order, renamed key, dropped key
     for j, ds in enumerate(tds):
-        if len(ds) >= 2 and ds[0] != ds[1]:
+        cds = [R.canon(d) for d in ds]
+        if cds != list(reversed(cds)):
             pt = R.build_tuple(list(reversed(ds)), 0)
             ck.hit("unequal_pairs")
             chk(ck, pt is not tups[j] and pt != tups[j], "identity:permuted-tuple-equal",
